@@ -914,6 +914,37 @@ func decoderLeaves(r *Rand, n int, o *Out) {
 }
 
 func streamC17(r *Rand, n int, o *Out) {
+	// deterministic: every path of up to three segments over { plain, empty, '.', '..', '%2e', '%2E%2e' } — the slash-collapsing
+	// and dot-segment corner of the web grammar (an empty segment before a final dot segment is only collapsed by the
+	// pipeline's SECOND parse: wave 10's S101) — under the two experimental profiles and a repeated-decoding profile with
+	// collapsing, with and without a query and a fragment
+	{
+		segAlpha := []string{"a", "", ".", "..", "%2e", "%2E%2e"}
+		var paths []string
+		var rec func(prefix string, depth int)
+		rec = func(prefix string, depth int) {
+			if depth > 0 {
+				paths = append(paths, prefix)
+			}
+			if depth == 3 {
+				return
+			}
+			for _, sg := range segAlpha {
+				rec(prefix+"/"+sg, depth+1)
+			}
+		}
+		rec("", 0)
+		profs := []*Prof{profGSB, profSemantic}
+		for _, pth := range paths {
+			for _, p := range profs {
+				for _, tail := range []string{"", "?x=1#f"} {
+					h := &Hist{}
+					checkIdem(h, p, "http://example.com"+pth+tail, true)
+					o.EmitHist("d", h)
+				}
+			}
+		}
+	}
 	profileLeaves(o)
 	decoderLeaves(r.Fork(), n/8, o)
 	for i := 0; i < n; i++ {
